@@ -51,9 +51,9 @@ pub fn c13_case() -> impl Strategy<Value = Case> {
         prop_oneof![6 => Just(None), 1 => (1u8..3).prop_map(Some)],
         prop_oneof![6 => Just(LS::Ok), 1 => Just(LS::Err), 1 => (1u8..=3).prop_map(LS::PendingUntil)],
         schedule(300),
-        (prop::collection::vec(0u8..3, 0..3), prop::bool::weighted(0.35), prop_oneof![5 => Just(None), 2 => (1u8..4, 1u8..=3).prop_map(Some)], prop::bool::weighted(0.4), prop_oneof![1 => Just(0u8), 3 => 0u8..12]),
+        (prop::collection::vec(0u8..3, 0..3), prop::bool::weighted(0.35), prop_oneof![5 => Just(None), 2 => (1u8..4, 1u8..=3).prop_map(Some)], prop::bool::weighted(0.4), prop_oneof![1 => Just(0u8), 3 => 0u8..12], prop_oneof![4 => Just(0u8), 1 => 1u8..4, 1 => Just(200u8)]),
     )
-        .prop_map(|((o0, o1, c0, c1), side, bend, peer, read, write, flush_err_at, shutdown, schedule, (extra_parks, plain, flush_pending, vectored, err_kind))| {
+        .prop_map(|((o0, o1, c0, c1), side, bend, peer, read, write, flush_err_at, shutdown, schedule, (extra_parks, plain, flush_pending, vectored, err_kind, pre_read))| {
             let mut peer = peer;
             // the peer may start reading late (credit starvation for the bridge)
             for (k, p) in extra_parks.iter().enumerate() {
@@ -68,7 +68,7 @@ pub fn c13_case() -> impl Strategy<Value = Case> {
                 opts: [o0, o1],
                 cap: [c0, c1],
                 streams: vec![StreamSpec { side, port: 22, pad: vec![], delay: 0, park: None, cancel: None, ends }],
-                bridges: vec![BridgeSpec { stream: 0, end: bend, read, write, flush_err_at, shutdown, plain, flush_pending, vectored, err_kind }],
+                bridges: vec![BridgeSpec { stream: 0, end: bend, read, write, flush_err_at, shutdown, plain, flush_pending, vectored, err_kind, pre_read }],
                 events,
                 schedule,
                 ..Case::default()
@@ -177,6 +177,8 @@ pub fn run_c13(case: &Case) -> Outcome {
             );
         }
     }
+    // bytes the application read from the stream by hand before it handed the stream to the bridge: not relayed by the bridge
+    let pre = run.app_events().find_map(|(_, e)| if let AppEv::Note(n) = e { n.strip_prefix("pre-read ").and_then(|x| x.parse::<usize>().ok()) } else { None }).unwrap_or(0);
     // (5) both directions ended => the future returns the two true byte counts
     let both_ended = local_eof && peer.shutdown_at.is_some() && local_shutdown && local_err.is_none() && !peer_let_go && me.total_read() == peer.total_written();
     if both_ended {
@@ -184,15 +186,15 @@ pub fn run_c13(case: &Case) -> Outcome {
             None => viol!("c13-not-completed", "both directions have ended (local EOF, peer Finish, local shutdown done) but the bridge future is still pending"),
             Some((_, Err(e))) => viol!("c13-spurious-error", "both directions ended cleanly but the bridge returned {e}"),
             Some((_, Ok((r, w)))) => {
-                if *r != me.total_read() || *w != me.total_written() {
-                    viol!("c13-wrong-counts", "bridge returned ({r}, {w}); {} bytes went from the stream to the local side and {} from the local side to the stream", me.total_read(), me.total_written());
+                if *r + pre != me.total_read() || *w != me.total_written() {
+                    viol!("c13-wrong-counts", "bridge returned ({r}, {w}); {} bytes went from the stream to the local side and {} from the local side to the stream", me.total_read() - pre, me.total_written());
                 }
             }
         }
     }
     if let Some((_, Ok((r, w)))) = &done {
-        if *r != me.total_read() || *w != me.total_written() {
-            viol!("c13-wrong-counts", "bridge returned ({r}, {w}); true counts are ({}, {})", me.total_read(), me.total_written());
+        if *r + pre != me.total_read() || *w != me.total_written() {
+            viol!("c13-wrong-counts", "bridge returned ({r}, {w}); true counts are ({}, {})", me.total_read() - pre, me.total_written());
         }
         if !(local_eof || peer_let_go) {
             viol!("c13-completed-early", "the bridge completed successfully although the local side never reached EOF");
@@ -237,7 +239,7 @@ pub fn burst_case(i: u64) -> Case {
     Case {
         opts: [OptsSpec { rwnd: 8, thr: 4, ..OptsSpec::default() }, OptsSpec { rwnd: 8, thr: 2, ..OptsSpec::default() }],
         streams: vec![StreamSpec { side: 0, port: 22, pad: vec![], delay: 0, park: None, cancel: None, ends }],
-        bridges: vec![BridgeSpec { stream: 0, end: 0, read, write: vec![], flush_err_at: None, shutdown: LS::Ok, plain, flush_pending: None, vectored: false, err_kind: 0 }],
+        bridges: vec![BridgeSpec { stream: 0, end: 0, read, write: vec![], flush_err_at: None, shutdown: LS::Ok, plain, flush_pending: None, vectored: false, err_kind: 0, pre_read: 0 }],
         events: (1u8..=3).map(|n| RawEvent { when: Trigger::Quiescent, what: What::Wake(n) }).collect(),
         step_bound: 2_000_000,
         ..Case::default()
@@ -245,7 +247,7 @@ pub fn burst_case(i: u64) -> Case {
 }
 
 pub fn c13(ctx: &Ctx, rep: &mut Report) {
-    rep.rule = "MuxStream::into_copy_bidirectional_with_buf (and, in a third of the cases, the default into_copy_bidirectional) over a scripted local AsyncBufRead+AsyncWrite: read half = chunks (1..20000 bytes; a directed family with 1 MiB / 16 MiB / 64 MiB ready at once), Pending until a harness event, Pending for ever, EOF or error at any position; write half = partial accepts, Pending points, error; flush/shutdown errors or delays; \
+    rep.rule = "MuxStream::into_copy_bidirectional_with_buf (and, in a third of the cases, the default into_copy_bidirectional) over a scripted local AsyncBufRead+AsyncWrite: read half = chunks (1..20000 bytes; a directed family with 1 MiB / 16 MiB / 64 MiB ready at once), Pending until a harness event, Pending for ever, EOF or error at any position; write half = partial accepts, Pending points, error; flush/shutdown errors or delays; every scripted failure carries one of 12 generated io::ErrorKinds (NotConnected, ConnectionReset, BrokenPipe, TimedOut, ...); in a third of the cases the application first reads from the stream by hand (one poll_read of 1-3 or 200 bytes, typically the beginning of a frame) and converts it into the bridge afterwards; \
                 the peer end is a real application (data, shutdown, drop, late reader = credit starvation) on a second real endpoint, with generated options, link back-pressure and schedule. Oracle: content function in both directions (exactly the bytes, in order), C03 window rule for the bridge's Push frames, Finish on local EOF, local shutdown after the peer's Finish, \
                 true byte counts on completion, and after any failed local operation the future must be complete at quiescence with an error. Non-trivial = the script has a Pending point and a partial write, or an error, or a peer abort. Distinct = distinct case value."
         .into();
